@@ -341,6 +341,20 @@ def run_unit(unit, acc):
                     acc.ev()
                     acc.trans()
                     _judge_add(o, arch, {"kind": "rpmadd", "pre": pre, "arch": arch, "srpm": srpm}, acc, "Rpms.add")
+        from mc.models import ids
+        for arch in ids.BINARY_ARCHES_DOC:
+            for what, o in (("Images.add", eval_images_add([], arch)), ("Rpms.add", eval_rpms_add([], arch, False))):
+                acc.ev()
+                acc.trans()
+                if o["result"] != "ok":
+                    acc.violation("add-binary-refused", {"kind": "imgadd" if what == "Images.add" else "rpmadd", "pre": [], "arch": arch, "srpm": False}, o,
+                                  "%s under documented binary arch %r refused: %s" % (what, arch, o["result"]))
+                else:
+                    acc.outcome("add:accepted")
+        for arch in ("armv6hlarmv6l", "x86", "s390 s390x", "x86_64 ", "ppc64l"):
+            for what, o in (("Images.add", eval_images_add([], arch)), ("Rpms.add", eval_rpms_add([], arch, False))):
+                acc.ev()
+                _judge_add(o, arch, {"kind": "imgadd" if what == "Images.add" else "rpmadd", "pre": [], "arch": arch, "srpm": False}, acc, what)
         acc.sample({"add": ["Server", "nosrc", "<image>"], "expected": "ValueError, manifest unchanged"}, limit=1)
     elif k in ("img1", "img2"):
         lays = variant_layouts()
